@@ -8,6 +8,7 @@ package exported
 //@ func CheckIsWrkChainTx(tx) (r)
 //@   props C05 C06
 //@   pure
-//@   ensures r == wrkTx(tx)
+//@   ensures @top_level_messages r == wrkTx(tx)
+//@   ensures @wrapped_messages_detected [C06] r == wrkTxDeep(tx)
 //@   loop 0: invariant 0 - 1 <= rangeindex && rangeindex < len(msgs) && msgs == txMsgs(tx)
 //@   loop 0: invariant forall j int :: {msgs[j]} 0 <= j && j <= rangeindex ==> !isWrkMsg(msgs[j])
